@@ -2,7 +2,7 @@
 P = 'Pymap.'
 THEOREMS = {
     'C01': ['C01.C01_coherent', 'C01.C01_fork_sync', 'C01.C01_hide_no_expunge', 'C01.C01_fetch_labels', 'C01.C01_system',
-            'Assemble.merge_same_message', 'Assemble.seq_stable_without_expunge'],
+            'Sync.merge_same_message', 'Sync.seq_stable_without_expunge'],
     'C02': ['C02.C02_log_inv', 'C02.C02_log_complete', 'C02.C02_noop_converges'],
     'C03': ['C03.C03_raw', 'C03.C03_size', 'C03.C03_header_text', 'C03.C03_partial'],
     'C04': ['C04.C04_uid_monotone', 'C04.C04_uidnext', 'C04.C04_appenduid', 'C04.C04_copyuid_pairing', 'C15.C15_recover'],
